@@ -252,6 +252,12 @@ struct ListDriver {
     Rng& rng;
     P h[NH];
     int mh[NH] = { 0, 0, 0, 0 };        // model: id each handle points at (0 = null)
+    // handles to const: every assignment from a P or from a node's next goes through the
+    // converting (templated) constructors and assignment operators
+    typedef tlx::CountingPtr<const Node> CP;
+    static const int NC = 2;
+    CP c[NC];
+    int mc[NC] = { 0, 0 };
     std::map<int, int> mnext;          // model: id -> id of next (0 = null), for every live node
     std::vector<std::string> trace;
     explicit ListDriver(Rng& r) : rng(r) {}
@@ -271,8 +277,10 @@ struct ListDriver {
         std::map<int, size_t> cnt;
         std::set<int> reach;
         for (int i = 0; i < NH; ++i) if (mh[i]) ++cnt[mh[i]];
+        for (int i = 0; i < NC; ++i) if (mc[i]) ++cnt[mc[i]];
         std::vector<int> work;
         for (int i = 0; i < NH; ++i) if (mh[i] && reach.insert(mh[i]).second) work.push_back(mh[i]);
+        for (int i = 0; i < NC; ++i) if (mc[i] && reach.insert(mc[i]).second) work.push_back(mc[i]);
         while (!work.empty()) {
             int x = work.back(); work.pop_back();
             int n = mnext.at(x);
@@ -283,9 +291,9 @@ struct ListDriver {
         if (Registry::get().count() != reach.size())
             bad("live-objects", std::string(after) + ": " + std::to_string(Registry::get().count()) + " nodes alive, " + std::to_string(reach.size()) + " reachable from the handles");
         // walk the real lists
-        for (int i = 0; i < NH; ++i) {
-            const Node* p = h[i].get();
-            int x = mh[i];
+        for (int i = 0; i < NH + NC; ++i) {
+            const Node* p = i < NH ? h[i].get() : c[i - NH].get();
+            int x = i < NH ? mh[i] : mc[i - NH];
             size_t steps = 0;
             while (p || x) {
                 if (!p || !x) bad("handle-target", std::string(after) + ": chain of h" + std::to_string(i) + " ends " + (p ? "later" : "earlier") + " than the model's");
@@ -303,7 +311,28 @@ struct ListDriver {
         ++g_ops;
         int i = (int)rng.below(NH), j = (int)rng.below(NH);
         std::string hi = "h" + std::to_string(i), hj = "h" + std::to_string(j);
-        switch (rng.below(12)) {
+        int a = (int)rng.below(NC), b = (int)rng.below(NC);
+        std::string ca = "c" + std::to_string(a), cb = "c" + std::to_string(b);
+        switch (rng.below(18)) {
+        case 12: trace.push_back(ca + " = " + hi + " (converting copy-assign)"); c[a] = h[i]; mc[a] = mh[i]; verif::count("list_const_from_handle"); break;
+        case 13: case 14:
+            if (!mc[a]) return;
+            trace.push_back(ca + " = " + ca + "->next (converting copy-assign from a member of the released node)");
+            c[a] = c[a]->next; mc[a] = mnext.at(mc[a]); verif::count("list_const_pop_front_by_copy"); break;
+        case 15:
+            if (!mc[a]) return;
+            if (rng.coin()) { trace.push_back(cb + " = " + ca + "->next (converting copy-assign)"); c[b] = c[a]->next; }
+            else { trace.push_back("CP tmp(" + ca + "->next); " + cb + ".swap(tmp) (converting copy-ctor)"); CP tmp(c[a]->next); c[b].swap(tmp); }
+            mc[b] = mnext.at(mc[a]); break;
+        case 16:
+            // (moves between handles of one object may leave the source as it was: the first driver covers them)
+            if (a == b || mc[a] == mc[b] || rng.coin()) { trace.push_back(ca + " = " + cb); c[a] = c[b]; mc[a] = mc[b]; }
+            else { trace.push_back(ca + " = std::move(" + cb + ")"); c[a] = std::move(c[b]); mc[a] = mc[b]; mc[b] = 0; }
+            break;
+        case 17:
+            if (rng.coin()) { trace.push_back(ca + ".reset()"); c[a].reset(); mc[a] = 0; }
+            else { trace.push_back(ca + " = P(" + hi + ") (converting move-assign)"); c[a] = P(h[i]); mc[a] = mh[i]; }
+            break;
         case 0: { h[i] = tlx::make_counting<Node>(); mh[i] = h[i]->id; mnext[mh[i]] = 0; trace.push_back(hi + " = new node #" + std::to_string(mh[i])); break; }
         case 1: case 2: {   // push front
             P n = tlx::make_counting<Node>();
@@ -351,9 +380,10 @@ struct ListDriver {
             size_t nops = rng.pick(std::vector<size_t>{ 20, 80, 250 });
             for (size_t k = 0; k < nops; ++k) op();
             for (int i = 0; i < NH; ++i) { h[i].reset(); mh[i] = 0; }
+            for (int i = 0; i < NC; ++i) { c[i].reset(); mc[i] = 0; }
             check("final reset");
         }
-        catch (Stop&) { for (auto& x : h) x.reset(); }
+        catch (Stop&) { for (auto& x : h) x.reset(); for (auto& x : c) x.reset(); }
         if (Registry::get().count() && !verif::case_failed()) verif::fail("C12:list:leak", std::to_string(Registry::get().count()) + " node(s) alive after all handles are gone");
         Registry::get().live.clear(); Registry::get().errors = 0;
         verif::cover("seq:list");
